@@ -14,6 +14,7 @@ func init() {
 		casPolarity(c, "C12.1b")
 		c08UpgradeBranchWiring(c, "C12.1c") // a closing session is closed on the new transport after an upgrade; clearTransport closes the old one
 		c11ReleaseAtClose(c, "C12.3")
+		noBaseBypass(c, "C12.3b") // every close of a polling transport runs polling.OnClose (which releases the pending poll)
 		c12TeardownOrdering(c)
 		c12CallbackBeforeTeardown(c)
 		// bounded completion: a closing session still drains its buffer and still times out
